@@ -735,3 +735,32 @@ def al4(ctx, pid):
         ctx.bad(c, f.loc(call), "snapshot may prune the shared db: " + why)
     else:
         ctx.unsure(c, f.loc(call), "construction not reachable")
+
+
+@rule("COPY", ["C17"])
+def copy_shape(ctx, pid):
+    """ScratchDB.copy(): wrapped contents overlaid by the buffer (buffer wins), DELETED entries filtered out."""
+    from ..pq import S
+    from ..sym import tstr
+    eng = S(ctx)
+    f = ctx.P.func(SDB + ".copy")
+    rets = set()
+    from .. import pq
+    for p, st in pq.states(ctx, f):
+        if p.exit[0] == "return":
+            rets.add(st.ret)
+    merged = ("call", "ext:eth_utils.toolz.merge", (("attr", ("self",), "wrapped_db"), ("attr", ("self",), "cache")), ())
+    ok = False
+    for r in rets:
+        if r[0] == "call" and r[1] == "ext:eth_utils.toolz.valfilter" and len(r[2]) == 2 and r[2][1] == merged:
+            ok = True
+    lam = [n for n in ast.walk(f.node) if isinstance(n, ast.Lambda)]
+    lam_ok = len(lam) == 1 and isinstance(lam[0].body, ast.Compare) and isinstance(lam[0].body.ops[0], ast.IsNot) and _is_deleted_marker(ctx, lam[0].body.comparators[0], f) \
+        and isinstance(lam[0].body.left, ast.Name) and lam[0].body.left.id == lam[0].args.args[0].arg
+    c = "overlay:ScratchDB.copy"
+    if ok and lam_ok and any(d.endswith("to_dict") for d in f.decos):
+        ctx.ok(c, f.loc(), "dict(valfilter(is not DELETED, merge(wrapped_db, cache))): the buffer overrides the wrapped db, deletions are dropped")
+    elif rets and not ok:
+        ctx.bad(c, f.loc(), "copy() returns `%s`; expected the wrapped db overlaid by the cache (cache last, so it wins) with DELETED filtered" % "; ".join(tstr(r)[:70] for r in rets))
+    else:
+        ctx.bad(c, f.loc(), "copy() does not filter out exactly the DELETED markers")
